@@ -21,6 +21,15 @@ for line in open(summ):
                 if mk.group(2) not in ("pass", "fail", "unwind"): inconc.append(mk.group(1))
     runs.setdefault(name, []).append({"check": "./check %s --tier %s%s" % (pid, tier, (" --only '%s'" % only) if only else ""),
                                       "exit": int(rc), "harnesses_run": len(ran), "violations": viol, "inconclusive": inconc})
+MISS = {
+ "C05_m2": "OBSOLETE: equivalent on the current tree -- fix dacb5da writes the input's correction factor into the destination before this line, so reading it back from the destination gives the same value (its demonstration passes with the patch applied); it re-creates the stale-metadata defect that fix repaired",
+ "C13_m3": "outside reach: is_prime (Miller-Rabin over rand::thread_rng) cannot be compiled by kani-compiler (ICE) and its modular exponentiation loop does not finish in CBMC; prime generation / primality is listed as not decided for C13",
+ "C12_m1": "outside reach: vector/complex entry point goes through the floating-point FFT and f64 rounding (not applicable, see DESIGN C12)",
+ "C12_m2": "outside reach: multi-precision float decomposition loop (f64 %, / by 2^64) -- floating-point entry points are not applicable (measured OOM, see incrate/ckks_encoder_v.rs)",
+ "C12_m3": "outside reach: coefficient-list entry point; a harness with concrete values and a symbolic stale destination exhausted 40 GB (powi/log2/ceil/round through CBMC's libm models)",
+ "C14_m1": "outside reach: deserializing EncryptionParameters calls Modulus::new -> is_prime -> thread_rng, which kani-compiler cannot compile; parameter serialization is listed as not decided for C14",
+ "C01_m2": "not decided: public-key encryption at a lower level needs the RLWE sampling glue (PRNG + samplers) inside CBMC; listed as outside for C01",
+}
 rows = []
 for d in sorted(glob.glob(os.path.join(ROOT, "seeded", "*_m*"))):
     name = os.path.basename(d); mp = os.path.join(d, "meta.json")
@@ -30,8 +39,11 @@ for d in sorted(glob.glob(os.path.join(ROOT, "seeded", "*_m*"))):
     meta["checks_run"] = list(prev.values())
     caught = sorted(set(v for r in meta["checks_run"] for v in r["violations"] if r["exit"] == 1))
     meta["caught_by"] = caught if caught else (None if not meta["checks_run"] else [])
-    if "miss_reason" not in meta: meta["miss_reason"] = None
+    meta["miss_reason"] = MISS.get(name) if not caught else None
     json.dump(meta, open(mp, "w"), indent=1)
+    lg = "/tmp/eval_%s.log" % name
+    if os.path.exists(lg):
+        open(os.path.join(d, "eval_tail.txt"), "w").write("".join(open(lg, errors="replace").readlines()[-25:]))
     first = meta.get("what_it_needs_to_manifest", "").strip().split("\n")[0][:140]
     rows.append((name, meta["property"], "caught" if caught else ("not run" if not meta["checks_run"] else "MISSED"),
                  ", ".join(caught) if caught else (meta.get("miss_reason") or ""), first))
